@@ -57,6 +57,7 @@ func (m *Machine) ufBytes(name string, in []*smt.Term, out int) []*smt.Term {
 	} else {
 		arg = smt.Concat(in...)
 	}
+	m.usedUF = true
 	fn := fmt.Sprintf("%s_%d", name, len(in))
 	r := smt.App(fn, smt.BV(8*out), arg)
 	m.ufPoints[fn] = append(m.ufPoints[fn], ufPoint{args: []*smt.Term{arg}, res: r})
